@@ -456,6 +456,23 @@ func genExtracted(b *strings.Builder, root, authp, httpio *pkg) {
 		w("Definition effects_%s : list string := %s.", f[1], strList(effectSkeleton(root, f[0], f[1])))
 	}
 	w("Definition effects_auth_ServeHTTP : list string := %s.", strList(effectSkeleton(authp, "Handler", "ServeHTTP")))
+	w("(* channels of the requester side and their capacities: the hand-over channel is unbuffered (a request handed over is in the loop's hands), the response channel of a request holds one response (nobody ever blocks sending to it) *)")
+	w("Definition requester_chan_makes : list string := %s.", strList(chanMakes(root, "setupRequestChan", "sendRequest")))
+	w("(* every write of a control frame with its deadline, and every place a write deadline is set on the connection *)")
+	w("Definition write_control_calls : list string := %s.", strList(callExprsNamed(root, "setupPings", "WriteControl")))
+	{
+		var wd []string
+		for _, fn := range root.sortedFiles() {
+			for _, d := range root.files[fn].Decls {
+				if fd, ok := d.(*ast.FuncDecl); ok && fd.Body != nil {
+					for _, c := range callExprsNamed(root, fd.Name.Name, "SetWriteDeadline") {
+						wd = append(wd, fd.Name.Name+": "+c)
+					}
+				}
+			}
+		}
+		w("Definition write_deadline_calls : list string := %s.", strList(wd))
+	}
 	w("(* the retry loop of handleRpcCall: every way out of it (in source order) and what follows the retry decision *)")
 	{
 		leaves, tail := retryLoop(root)
@@ -1792,4 +1809,49 @@ func packageVars(p *pkg) (vars []string, muts []string) {
 	}
 	sort.Strings(muts)
 	return
+}
+
+// callExprsNamed: the textual form (with arguments) of every call in function fn whose callee's last selector is one of
+// names, in source order; fn may be a method of any receiver
+func callExprsNamed(p *pkg, fn string, names ...string) []string {
+	fd := p.anyFunc(fn)
+	if fd == nil {
+		die("%s not found", fn)
+	}
+	want := map[string]bool{}
+	for _, n := range names {
+		want[n] = true
+	}
+	var out []string
+	ast.Inspect(fd.Body, func(n ast.Node) bool {
+		ce, ok := n.(*ast.CallExpr)
+		if !ok {
+			return true
+		}
+		name := ""
+		switch f := ce.Fun.(type) {
+		case *ast.Ident:
+			name = f.Name
+		case *ast.SelectorExpr:
+			name = f.Sel.Name
+		}
+		if want[name] {
+			out = append(out, exprString2(ce))
+		}
+		return true
+	})
+	return out
+}
+
+// chanMakes: every make(chan ...) expression of the named functions, as "fn: make(...)"
+func chanMakes(p *pkg, fns ...string) []string {
+	var out []string
+	for _, fn := range fns {
+		for _, m := range callExprsNamed(p, fn, "make") {
+			if strings.HasPrefix(m, "make(chan ") {
+				out = append(out, fn+": "+m)
+			}
+		}
+	}
+	return out
 }
